@@ -26,11 +26,19 @@ symbolic phase can hold the factors and no entry is dropped —
   `symbNaive_contains_numeric`      the same for the factors computed by the numeric model `LU.luFactor`.
 These three carry the hypothesis `RelaxOk` (no column of a relaxed supernode has an entry above the
 supernode).  The last section DERIVES it from the column elimination tree (Lemmas/RelaxOk.lean: row-merge
-argument) and restates the containment without it, SymmetricMode excluded —
+argument) and restates the containment without it —
   `relaxOk_of_coletree`, `relaxOk_of_spPreorder`   `RelaxOk` for `relax_snode` run on the column etree;
   `symbNaive_contains_factors_coletree`            tree = `coletree` of the columns handed to the factorization;
   `symbNaive_contains_factors_spPreorder`          tree and columns = what `sp_preorder` returns (no tree hypothesis left);
-  `symbNaive_contains_numeric_coletree`            the numeric model.
+  `symbNaive_contains_numeric_coletree`            the numeric model;
+  `relaxOk_of_spPreorder_sym`, `symbNaive_contains_factors_spPreorder_sym`
+                                                   the same for SymmetricMode = YES (tree not postordered,
+                                                   `heap_relax_snode`; via C10 `heapRelaxSnode_ranges`), any pattern,
+                                                   any row permutation;
+  `relaxOk_symetree_fails`, `relaxOk_of_symetree_diag`
+                                                   the elimination tree of `A + Aᵀ` in place of the column etree: false
+                                                   under a row interchange (3×3 counterexample), true for every
+                                                   pattern when the pivots stay on the diagonal.
 SYMMETRIC PRUNING (Lemmas/Prune.lean; the schedule side is in Props/C02.lean): the searches of the
 library scan row lists cut by [sdcz]pruneL.  Proved at column level —
   `column_struct_pruned_search`     with the list of any column cut at ANY symmetric pair, the search for column
@@ -562,10 +570,12 @@ So `symbNaive_contains_factors_spPreorder` has NO hypothesis on the tree left: `
 nonzero pivots.  In `…_coletree` the tree is `coletree` of the very columns that are factored and "postordered"
 is a hypothesis (`spPreorder_subtrees` is about the relabelled tree, which is the `…_spPreorder` form).
 
-NOT covered: SymmetricMode (`relaxEndOf … true`: `heap_relax_snode` on the etree of `A + Aᵀ`, where the
-supernodes are not subtrees of the column etree of the factored matrix); the identification of
-`permutedCols A perm_c perm_r` with `fun c => ((sp_preorder view).col c).map perm_r` (inverse of `perm_c`
-computed by a loop) is by correspondence only. -/
+SymmetricMode (`relaxEndOf … true`, `heap_relax_snode`) is covered by the last section of this file
+(`…_sym`): there `sp_preorder` keeps the column elimination tree as computed, heap ordered but not
+postordered, and C10's `heapRelaxSnode_ranges` shows that the recorded supernodes are whole subtrees of it.
+NOT covered: the identification of `permutedCols A perm_c perm_r` with
+`fun c => ((sp_preorder view).col c).map perm_r` (inverse of `perm_c` computed by a loop) is by correspondence
+only. -/
 namespace Slu.Symb
 open Slu Slu.Struct Slu.Order
 
@@ -848,5 +858,259 @@ example : ¬ ShareDesc 5 rxBad (coletree 5 5 rxAcol) := by
   rw [desc_iff_mem_order (coletree_heap 5 5 rxAcol).2 (by decide)] at hd
   revert hd
   decide +kernel
+
+/-! ### SymmetricMode: `heap_relax_snode`
+
+With `options.SymmetricMode = YES`, `sp_preorder` does not postorder: it returns the column elimination tree of
+`A·Pc` exactly as `sp_coletree` computes it (`spPreorder A p true`; the model is compared with sp_preorder.c on
+every run and `spPreorder_perm` covers both settings) and `relax_end` comes from `heap_relax_snode`
+(`relaxEndOf … true`).  The tree is still the COLUMN elimination tree of the factored columns — it is the
+column ORDERING that SymmetricMode takes from `A + Aᵀ` (`get_perm_c`, MMD_AT_PLUS_A), not the tree — so
+`ShareDesc` holds without any relabelling (`coletree_shareDesc`), and `heapRelaxSnode_ranges` (C10: on ANY
+heap-ordered forest every recorded supernode is exactly a subtree) replaces `relaxSnode_ranges` +
+`spPreorder_subtrees`.  `relaxOk_of_subtrees` never needed a postordered tree.  Hence the `_sym` theorems
+below hold for EVERY pattern, every row permutation and every `relax`, with no symmetry hypothesis.
+
+What would NOT hold is the same with the elimination tree of `A + Aᵀ` (`sp_symetree` of `at_plus_a`) in place
+of the column elimination tree: that tree bounds the structure only when the pivots stay on the diagonal.
+`relaxOk_symetree_fails` is a 3×3 pattern with an exact factorization under a row interchange in which a
+relaxed supernode that is a whole subtree of the `A + Aᵀ` tree has an entry above itself;
+`relaxOk_of_entryDesc` / `relaxOk_of_symetree_diag` is the version that does hold: rows in their original
+numbering (pivots on the diagonal), any pattern — structurally symmetric or not — whose entries above the
+diagonal are edges of the graph the tree was computed from. -/
+
+/-- **what `relax_end` records in SymmetricMode** (`relaxEndOf … true`, i.e. heap_relax_snode.c, on ANY
+heap-ordered forest): `relaxEnd j = some k` only if `j ≤ k < n` and the columns `j..k` are exactly the subtree
+of `k` (`heapRelaxSnode_ranges`) -/
+theorem relaxEndOf_subtrees_sym (n relax : Nat) (et : Array Nat) (h : Heap n et) :
+    ∀ j k, relaxEndOf n relax et true j = some k →
+      j ≤ k ∧ k < n ∧ ∀ u, u < n → (Desc n et u k ↔ j ≤ u ∧ u ≤ k) := by
+  obtain ⟨hsz, hr, _⟩ := heapRelaxSnode_ranges n relax et h
+  intro j k hjk
+  simp only [relaxEndOf, if_true] at hjk
+  by_cases hj : j < n
+  · rcases hr j hj with e | ⟨e, he, h1, h2, h3, _⟩
+    · rw [e] at hjk; simp at hjk
+    · rw [he] at hjk
+      simp at hjk
+      subst hjk
+      exact ⟨h1, h2, h3⟩
+  · have : (heapRelaxSnode n relax et).2.getD j (-1) = -1 := by
+      simp [Array.getD_eq_getD_getElem?, hsz, hj]
+    rw [this] at hjk; simp at hjk
+
+/-- **C03 (`RelaxOk`, SymmetricMode, any tree with `ShareDesc`).**  `et` heap ordered — NOT necessarily
+postordered — two columns of `cols` that share a row related in `et`, every pivot row structurally nonzero in
+its pivot column: the relaxed supernodes `heap_relax_snode` finds in `et` satisfy `RelaxOk` for `cols`. -/
+theorem relaxOk_of_etree_sym (n relax : Nat) (cols : Nat → List Nat) (et : Array Nat) (h : Heap n et)
+    (hs : ShareDesc n cols et) (hpiv : ∀ t, t < n → RowFill n cols t t) :
+    RelaxOk n cols (relaxEndOf n relax et true) :=
+  relaxOk_of_subtrees h hs hpiv (relaxEndOf_subtrees_sym n relax et h)
+
+/-- **C03 (`RelaxOk` from the column elimination tree, SymmetricMode).**  As `relaxOk_of_coletree`, for
+`heap_relax_snode`, without the hypothesis that the tree is postordered. -/
+theorem relaxOk_of_coletree_sym (nr n relax : Nat) (acol : Nat → List Nat) (π : Nat → Nat)
+    (hrow : ∀ c, c < n → ∀ i ∈ acol c, i < nr)
+    (hπ : ∀ i, i < nr → ∀ i', i' < nr → π i = π i' → i = i')
+    (hpiv : ∀ t, t < n → RowFill n (fun c => (acol c).map π) t t) :
+    RelaxOk n (fun c => (acol c).map π) (relaxEndOf n relax (coletree nr n acol) true) :=
+  relaxOk_of_etree_sym n relax _ _ (coletree_heap nr n acol).2
+    ((coletree_shareDesc nr n acol hrow).map_rows nr hrow π hπ) hpiv
+
+/-- in SymmetricMode `sp_preorder` returns the permuted view and its column elimination tree unchanged -/
+theorem spPreorder_sym_view (A : Pat) (p : Array Nat) :
+    (spPreorder A p true).view A = permView A p ∧
+    (spPreorder A p true).etree = coletree A.m A.n (permView A p).col := ⟨rfl, rfl⟩
+
+/-- **the tree `sp_preorder` returns in SymmetricMode fits the columns it returns** (no relabelling) -/
+theorem shareDesc_spPreorder_sym (A : Pat) (p : Array Nat) (hrow : ∀ r ∈ A.rowind.toList, r < A.m) :
+    ShareDesc A.n ((spPreorder A p true).view A).col (spPreorder A p true).etree := by
+  rw [(spPreorder_sym_view A p).1, (spPreorder_sym_view A p).2]
+  apply coletree_shareDesc
+  intro c _ r hr
+  apply hrow
+  unfold View.col slice at hr
+  exact List.mem_of_mem_drop (List.mem_of_mem_take hr)
+
+/-- **C03 (`RelaxOk`, real inputs, SymmetricMode).**  For every stored pattern `A` (row indices `< m`), every
+column ordering `p` (not even required to be a permutation), every `relax`, every injective `π` (`perm_r`):
+with the view and the tree `sp_preorder` returns in SymmetricMode, `relax_end = heap_relax_snode(etree)`
+satisfies `RelaxOk` for `Pr·A·Pc`, provided every pivot row is structurally nonzero in its pivot column. -/
+theorem relaxOk_of_spPreorder_sym (A : Pat) (p : Array Nat)
+    (hrow : ∀ r ∈ A.rowind.toList, r < A.m) (relax : Nat) (π : Nat → Nat)
+    (hπ : ∀ i, i < A.m → ∀ i', i' < A.m → π i = π i' → i = i')
+    (hpiv : ∀ t, t < A.n → RowFill A.n (fun c => (((spPreorder A p true).view A).col c).map π) t t) :
+    RelaxOk A.n (fun c => (((spPreorder A p true).view A).col c).map π)
+      (relaxEndOf A.n relax (spPreorder A p true).etree true) := by
+  have hrow' : ∀ c, c < A.n → ∀ r ∈ ((spPreorder A p true).view A).col c, r < A.m := by
+    intro c _ r hr
+    apply hrow
+    unfold View.col slice at hr
+    exact List.mem_of_mem_drop (List.mem_of_mem_take hr)
+  have hheap : Heap A.n (spPreorder A p true).etree := by
+    rw [(spPreorder_sym_view A p).2]; exact (coletree_heap _ _ _).2
+  exact relaxOk_of_etree_sym A.n relax _ _ hheap
+    ((shareDesc_spPreorder_sym A p hrow).map_rows A.m hrow' π hπ) hpiv
+
+/-- `symbNaive_contains_factors` with `RelaxOk` derived, SymmetricMode: any heap-ordered `et` with `ShareDesc`,
+no postorder hypothesis -/
+theorem symbNaive_contains_factors_etree_sym {K : Type} [Field K] (n maxsuper relax : Nat) (B L U : Nat → Nat → K)
+    (cols : Nat → List Nat) (et : Array Nat)
+    (hcols : ∀ i < n, ∀ j < n, B i j ≠ 0 → i ∈ cols j)
+    (hB : ∀ i < n, ∀ j < n, B i j = ∑ t ∈ Finset.range n, L i t * U t j)
+    (hL1 : ∀ i < n, L i i = 1) (hL0 : ∀ i < n, ∀ t < n, i < t → L i t = 0)
+    (hU0 : ∀ t < n, ∀ j < n, j < t → U t j = 0) (hUd : ∀ j < n, U j j ≠ 0)
+    (hheap : Heap n et) (hshare : ShareDesc n cols et) :
+    let o := symbNaive n maxsuper cols (relaxEndOf n relax et true)
+    ∀ j < n,
+      (∀ i < n, L i j ≠ 0 → i ∈ (o.rows[o.supno[j]!]!).drop (j - o.xsup[o.supno[j]!]!)) ∧
+      (∀ k < n, U k j ≠ 0 → k ∈ o.ucols[j]! ∨ (o.xsup[o.supno[j]!]! ≤ k ∧ k ≤ j)) :=
+  symbNaive_contains_factors n maxsuper B L U cols _ hcols hB hL1 hL0 hU0 hUd
+    (relaxOk_of_etree_sym n relax cols et hheap hshare
+      (rowFill_diag_of_LU n B L U cols hcols hB hL1 hL0 hU0 hUd))
+
+/-- **C03 (soundness of the predicted structure, real inputs of the symbolic phase, SymmetricMode).**
+`symbNaive_contains_factors_spPreorder` for `SymmetricMode = YES`: the tree and the column view are what
+`sp_preorder` returns without postordering, `relax_end` is computed by `heap_relax_snode`.  ANY pattern `A`
+(no structural symmetry assumed), ANY column ordering, ANY injective row permutation `π` (the pivots need not
+be on the diagonal), `B = Pr·A·Pc = L·U` exactly with nonzero pivots: every nonzero of `L(:,j)` and `U(:,j)`
+lies in the predicted structure.  No hypothesis about the tree is left. -/
+theorem symbNaive_contains_factors_spPreorder_sym {K : Type} [Field K] (A : Pat) (p : Array Nat)
+    (maxsuper relax : Nat) (B L U : Nat → Nat → K) (π : Nat → Nat)
+    (hrow : ∀ r ∈ A.rowind.toList, r < A.m)
+    (hπ : ∀ i, i < A.m → ∀ i', i' < A.m → π i = π i' → i = i')
+    (hcols : ∀ i < A.n, ∀ j < A.n, B i j ≠ 0 → i ∈ (((spPreorder A p true).view A).col j).map π)
+    (hB : ∀ i < A.n, ∀ j < A.n, B i j = ∑ t ∈ Finset.range A.n, L i t * U t j)
+    (hL1 : ∀ i < A.n, L i i = 1) (hL0 : ∀ i < A.n, ∀ t < A.n, i < t → L i t = 0)
+    (hU0 : ∀ t < A.n, ∀ j < A.n, j < t → U t j = 0) (hUd : ∀ j < A.n, U j j ≠ 0) :
+    let o := symbNaive A.n maxsuper (fun c => (((spPreorder A p true).view A).col c).map π)
+      (relaxEndOf A.n relax (spPreorder A p true).etree true)
+    ∀ j < A.n,
+      (∀ i < A.n, L i j ≠ 0 → i ∈ (o.rows[o.supno[j]!]!).drop (j - o.xsup[o.supno[j]!]!)) ∧
+      (∀ k < A.n, U k j ≠ 0 → k ∈ o.ucols[j]! ∨ (o.xsup[o.supno[j]!]! ≤ k ∧ k ≤ j)) := by
+  have hrow' : ∀ c, c < A.n → ∀ r ∈ ((spPreorder A p true).view A).col c, r < A.m := by
+    intro c _ r hr
+    apply hrow
+    unfold View.col slice at hr
+    exact List.mem_of_mem_drop (List.mem_of_mem_take hr)
+  have hheap : Heap A.n (spPreorder A p true).etree := by
+    rw [(spPreorder_sym_view A p).2]; exact (coletree_heap _ _ _).2
+  exact symbNaive_contains_factors_etree_sym A.n maxsuper relax B L U _ _ hcols hB hL1 hL0 hU0 hUd hheap
+    ((shareDesc_spPreorder_sym A p hrow).map_rows A.m hrow' π hπ)
+
+/-! non-vacuity (SymmetricMode): the matrix `rxB` with rows and columns 1,2,3 rotated (old 2,3,1), so that the
+factors stay triangular: `syB = syL·syU`; `perm_r = (1 0 3 2 4)` as before.  Columns of `A·Pc` in original row
+numbers: {1,2}, {0,3}, {0,3}, {1,2,4}, {2,3,4}.  Their column elimination tree `[3,2,4,4,5]` (0→3→4, 1→2→4) is
+heap ordered and NOT postordered: the subtree of 3 is `{0,3}`.  `relax = 2`: the subtree `{1,2}` of 2 passes the
+contiguity test and becomes the relaxed supernode `[1..2]`; the subtree `{0,3}` of 3 fails it, its leaf 0 is
+recorded alone.  `syA` stores the five columns in the order 4,0,1,2,3 and `p = (4 0 1 2 3)` puts them back. -/
+def syA : Pat := { m := 5, n := 5, colptr := #[0, 3, 5, 7, 9, 12], rowind := #[2, 3, 4, 1, 2, 0, 3, 0, 3, 1, 2, 4] }
+def syB := rxMat [[1,0,0,1,0],[0,1,1,0,0],[0,1,2,0,1],[1,0,0,2,1],[0,0,0,1,2]]
+def syL := rxMat [[1,0,0,0,0],[0,1,0,0,0],[0,1,1,0,0],[1,0,0,1,0],[0,0,0,1,1]]
+def syU := rxMat [[1,0,0,1,0],[0,1,1,0,0],[0,0,1,0,1],[0,0,0,1,1],[0,0,0,0,1]]
+
+example : (spPreorder syA #[4, 0, 1, 2, 3] true).etree = #[3, 2, 4, 4, 5] := by decide +kernel
+example : (List.range 5).map (relaxEndOf 5 2 (spPreorder syA #[4, 0, 1, 2, 3] true).etree true) =
+    [some 0, some 2, none, none, none] := by decide +kernel
+/-- the tree is not postordered: 1 and 2 lie between 0 and 3 and are no descendants of 3 -/
+example : ¬ ∀ v < 5, ∃ lo, ∀ u < 5, Desc 5 (spPreorder syA #[4, 0, 1, 2, 3] true).etree u v ↔ lo ≤ u ∧ u ≤ v := by
+  intro hp
+  obtain ⟨lo, hlo⟩ := hp 3 (by decide)
+  have hheap : Heap 5 (spPreorder syA #[4, 0, 1, 2, 3] true).etree := (coletree_heap _ _ _).2
+  have e3 : (spPreorder syA #[4, 0, 1, 2, 3] true).etree.getD 0 0 = 3 := by decide +kernel
+  have h1 : Desc 5 (spPreorder syA #[4, 0, 1, 2, 3] true).etree 0 3 :=
+    Desc.step (by decide) (by rw [e3]; exact Desc.refl _)
+  have h2 := (hlo 2 (by decide)).mpr ⟨by have := ((hlo 0 (by decide)).mp h1).1; omega, by decide⟩
+  rw [desc_iff_mem_order hheap (by decide)] at h2
+  revert h2
+  decide +kernel
+
+/-- every hypothesis of `symbNaive_contains_factors_spPreorder_sym` is decided, none is about the tree … -/
+example :
+    let o := symbNaive 5 3 (fun c => (((spPreorder syA #[4, 0, 1, 2, 3] true).view syA).col c).map rxPi)
+      (relaxEndOf 5 2 (spPreorder syA #[4, 0, 1, 2, 3] true).etree true)
+    ∀ j < 5,
+      (∀ i < 5, syL i j ≠ 0 → i ∈ (o.rows[o.supno[j]!]!).drop (j - o.xsup[o.supno[j]!]!)) ∧
+      (∀ k < 5, syU k j ≠ 0 → k ∈ o.ucols[j]! ∨ (o.xsup[o.supno[j]!]! ≤ k ∧ k ≤ j)) :=
+  symbNaive_contains_factors_spPreorder_sym syA #[4, 0, 1, 2, 3] 3 2 syB syL syU rxPi (by decide) (by decide)
+    (by decide +kernel) (by decide +kernel) (by decide +kernel) (by decide +kernel) (by decide +kernel) (by decide +kernel)
+
+/-- … and the prediction does contain the relaxed supernode `[1..2]` -/
+example :
+    let o := symbNaive 5 3 (fun c => (((spPreorder syA #[4, 0, 1, 2, 3] true).view syA).col c).map rxPi)
+      (relaxEndOf 5 2 (spPreorder syA #[4, 0, 1, 2, 3] true).etree true)
+    o.xsup = [0, 1, 3, 5] ∧ o.rows = [[0, 3], [1, 2], [3, 4]] ∧ o.ucols = [[], [], [], [0], [1, 2]] := by
+  decide +kernel
+
+/-! #### the elimination tree of `A + Aᵀ` instead of the column elimination tree
+
+`exS`: columns {2}, {1,2}, {0,2} (original rows).  `A + Aᵀ` has the edges 0–2, 1–2, its elimination tree is
+`[2,2,3]` (two leaves 0, 1 under the root 2) and with `relax = 1` heap_relax_snode records the two leaves as
+supernodes `[0..0]`, `[1..1]` — each a whole subtree.  With the row permutation `perm_r = (2 1 0)` (row 2 is
+the pivot row of column 0), `B = Pr·A = [[1,1,1],[0,1,0],[0,0,1]]` is unit upper triangular, so `B = I·B` is an
+exact factorization with nonzero pivots.  Column 1 of the supernode `[1..1]` has the entry `B(0,1)` ABOVE the
+supernode: `RelaxOk` is false.  (The column elimination tree of the same columns is the chain `[1,2,3]`, all
+three columns share row 2, and there `[1..1]` is not recorded: `RelaxOk` holds, as `relaxOk_of_coletree_sym`
+says.) -/
+def exS : Pat := { m := 3, n := 3, colptr := #[0, 1, 3, 5], rowind := #[2, 1, 2, 0, 2] }
+def exSPi : Nat → Nat := fun i => [2, 1, 0].getD i i
+
+example : symetree 3 (atPlusA exS).col = #[2, 2, 3] ∧ coletree 3 3 exS.col = #[1, 2, 3] := by decide +kernel
+example : (List.range 3).map (relaxEndOf 3 1 (symetree 3 (atPlusA exS).col) true) = [some 0, some 1, none] ∧
+    (List.range 3).map (relaxEndOf 3 1 (coletree 3 3 exS.col) true) = [some 0, none, none] := by decide +kernel
+/-- the supernode `[1..1]` IS a whole subtree of the tree of `A + Aᵀ` -/
+example : ∀ u, u < 3 → (Desc 3 (symetree 3 (atPlusA exS).col) u 1 ↔ 1 ≤ u ∧ u ≤ 1) :=
+  (relaxEndOf_subtrees_sym 3 1 _ (symetree_heap 3 _).2 1 1 (by decide +kernel)).2.2
+/-- every pivot row of `B = Pr·A` is structurally nonzero in its pivot column (the diagonal of `B` is stored) -/
+example : ∀ t, t < 3 → RowFill 3 (fun c => (exS.col c).map exSPi) t t := by
+  intro t ht
+  refine RowFill.orig ht ?_
+  revert t
+  decide
+/-- **a whole subtree of the `A + Aᵀ` tree with an entry above itself**: column 1 has an entry in pivot row 0 -/
+theorem relaxOk_symetree_fails :
+    ¬ RelaxOk 3 (fun c => (exS.col c).map exSPi) (relaxEndOf 3 1 (symetree 3 (atPlusA exS).col) true) := by
+  intro h
+  have := h 1 1 (by decide +kernel) 1 (by decide) (by decide) 0 (by decide)
+  omega
+/-- with the column elimination tree of the same columns `RelaxOk` holds (derived, not evaluated) -/
+example : RelaxOk 3 (fun c => (exS.col c).map exSPi) (relaxEndOf 3 1 (coletree 3 3 exS.col) true) :=
+  relaxOk_of_coletree_sym 3 3 1 exS.col exSPi (by decide) (by decide)
+    (fun t ht => RowFill.orig ht (by revert t; decide))
+
+/-- **what does hold for the tree of `A + Aᵀ`: pivots on the diagonal.**  For EVERY pattern `A` (structurally
+symmetric or not), rows in their own numbering (no row interchange), every `relax`: the supernodes that
+heap_relax_snode records in the elimination tree of `A + Aᵀ` (`sp_symetree` of `at_plus_a`) have no entry
+above themselves. -/
+theorem relaxOk_of_symetree_diag (A : Pat) (relax : Nat) :
+    RelaxOk A.n A.col (relaxEndOf A.n relax (symetree A.n (atPlusA A).col) true) := by
+  obtain ⟨_, _, _, _, _, _, hmem⟩ := atPlusA_spec A
+  refine relaxOk_of_entryDesc (entryDesc_symetree A.n (atPlusA A).col A.col ?_ ?_)
+    (relaxEndOf_subtrees_sym A.n relax _ (symetree_heap A.n _).2)
+  · intro i j hi hj hij
+    obtain ⟨h1, h2⟩ := (hmem j hj i).mp hij
+    refine (hmem i hi j).mpr ⟨fun e => h1 e.symm, ?_⟩
+    rcases h2 with h2 | ⟨_, h2⟩
+    · exact Or.inr ⟨hj, h2⟩
+    · exact Or.inl h2
+  · intro c hc r hr hrc
+    exact (hmem c hc r).mpr ⟨by omega, Or.inl hr⟩
+
+/-- hence, with pivots on the diagonal (`A = L·U` exactly, no row interchange), the prediction made with the
+relaxed supernodes of the `A + Aᵀ` tree contains the factors — any pattern -/
+theorem symbNaive_contains_factors_symetree_diag {K : Type} [Field K] (A : Pat) (maxsuper relax : Nat)
+    (B L U : Nat → Nat → K)
+    (hcols : ∀ i < A.n, ∀ j < A.n, B i j ≠ 0 → i ∈ A.col j)
+    (hB : ∀ i < A.n, ∀ j < A.n, B i j = ∑ t ∈ Finset.range A.n, L i t * U t j)
+    (hL1 : ∀ i < A.n, L i i = 1) (hL0 : ∀ i < A.n, ∀ t < A.n, i < t → L i t = 0)
+    (hU0 : ∀ t < A.n, ∀ j < A.n, j < t → U t j = 0) (hUd : ∀ j < A.n, U j j ≠ 0) :
+    let o := symbNaive A.n maxsuper A.col (relaxEndOf A.n relax (symetree A.n (atPlusA A).col) true)
+    ∀ j < A.n,
+      (∀ i < A.n, L i j ≠ 0 → i ∈ (o.rows[o.supno[j]!]!).drop (j - o.xsup[o.supno[j]!]!)) ∧
+      (∀ k < A.n, U k j ≠ 0 → k ∈ o.ucols[j]! ∨ (o.xsup[o.supno[j]!]! ≤ k ∧ k ≤ j)) :=
+  symbNaive_contains_factors A.n maxsuper B L U A.col _ hcols hB hL1 hL0 hU0 hUd (relaxOk_of_symetree_diag A relax)
+
+/-- non-vacuity: on `exS` itself (unsymmetric) without the row interchange the statement applies -/
+example : RelaxOk 3 exS.col (relaxEndOf 3 1 (symetree 3 (atPlusA exS).col) true) := relaxOk_of_symetree_diag exS 1
 
 end Slu.Symb
